@@ -1379,3 +1379,24 @@ def _cond_terms(c):
     if c[0] == "not":
         return _cond_terms(c[1])
     return []
+
+
+def rule_observers(ctx, classes=SKETCH_CLASSES):
+    """n_added() / n_records() return slot 0 / slot 1 of the bookkeeping array."""
+    F = facts_of(ctx)
+    seen = set()
+    for cls in F.classes(classes):
+        for name, slot in (("n_added", 0), ("n_records", 1)):
+            m = cls.resolve(name)
+            if m is None:
+                if cls.module.short != "hyperloglog":
+                    ctx.ob("observers", (cls.module.relpath, cls.name), cls.node, "%s.%s" % (cls.name, name), "bookkeeping observer exists", False)
+                continue
+            if m.key in seen:
+                continue
+            seen.add(m.key)
+            rets = [n for n in walk_no_nested(m.node) if isinstance(n, ast.Return)]
+            okk = len(rets) == 1 and isinstance(rets[0].value, ast.Subscript) and self_attr(rets[0].value.value) == "n_added_records" \
+                and const_int(rets[0].value.slice) == slot
+            ctx.ob("observers", m, rets[0] if rets else m.node, "%s returns n_added_records[%d]" % (m.qualname, slot),
+                   "%s() reads bookkeeping slot %d" % (name, slot), okk)
